@@ -2,7 +2,7 @@
    Statements only (copied from the lemma libraries); every proof is a bare
    `exact`; see the cited files in coq/proofs for the proofs. *)
 From Coq Require Import List NArith ZArith Bool Arith Sorting.Sorted Sorting.Permutation.
-From D2P Require Import Str Err Xml TableTypes Tables Fmt Merge Collector Walk TokFacts MiscFacts ProjFacts.
+From D2P Require Import Str Err Xml TableTypes Tables Fmt Merge Collector Walk TokFacts MiscFacts ProjFacts PyVal Source SourceBase ViewFacts SourceViews.
 Import ListNotations.
 Open Scope N_scope.
 Import String.StringSyntax.
@@ -144,3 +144,31 @@ Theorem C07_blank_vertalign_refuted :
     get_run_formatting e ks xml2html_table = Ok st /\ In x st /\ first_word x = Err IndexError.
 Proof. exact styles_words_ok_counterexample. Qed.
 Print Assumptions C07_blank_vertalign_refuted.
+
+(* TIE TO THE SOURCE TEXT (gen/Source.v is regenerated from /repo by tools/gen_source.py on every run): text_runs.html_open as translated from the Python source equals the model's *)
+Theorem C07_source_html_open :
+  forall st,
+  S_html_open (VList (map VStr st)) = Ok (VStr (html_open st)).
+Proof. exact src_html_open. Qed.
+Print Assumptions C07_source_html_open.
+
+(* html_close likewise (reversed order, first word of each style; IndexError for a blank style) *)
+Theorem C07_source_html_close :
+  forall st,
+  S_html_close (VList (map VStr st)) = lift_str (html_close st).
+Proof. exact src_html_close. Qed.
+Print Assumptions C07_source_html_close.
+
+(* depth_collector.Run.__str__ as translated from the source: open tags + text + closing tags, nothing for an empty run - equal to the model's run_toks rendered *)
+Theorem C07_source_run_str :
+  forall html r,
+  S_Run__str_ (enc_run html r) = lift_str (ts <- run_toks r ;; Ok (render html ts)).
+Proof. exact src_run_str. Qed.
+Print Assumptions C07_source_run_str.
+
+(* Par.run_strings as translated from the source (non-empty run strings, wrapped in the paragraph style's tags) equals the model's par_run_strings: C07_balanced / C07_projection speak about the source *)
+Theorem C07_source_par_run_strings :
+  forall html p,
+  S_Par_run_strings (enc_par html p) = lift_strs (par_run_strings html p).
+Proof. exact src_par_run_strings. Qed.
+Print Assumptions C07_source_par_run_strings.
